@@ -216,9 +216,12 @@ pub fn cell_to_boundary(
     let opts = options.unwrap_or_default();
     let cell_data = deserialize(cell_id)?;
 
+    // A non-positive segment count means "do not subdivide" (a negative count used to be cast to a
+    // huge usize and exhaust memory)
     let segments = opts
         .segments
-        .unwrap_or_else(|| std::cmp::max(1, 2_i32.pow((6 - cell_data.resolution).max(0) as u32)));
+        .unwrap_or_else(|| std::cmp::max(1, 2_i32.pow((6 - cell_data.resolution).max(0) as u32)))
+        .max(1);
 
     let pentagon = get_pentagon(&cell_data)?;
 
